@@ -329,6 +329,17 @@ struct V : RecursiveASTVisitor<V> {
     emit(std::move(o));
     return true;
   }
+  bool VisitEnumDecl(EnumDecl *D) {
+    if (!D->isThisDeclarationADefinition() || !inRepo(D->getLocation())) return true;
+    std::string n = D->getQualifiedNameAsString();
+    if (!claim("EN", n + "@" + loc(D->getLocation()))) return true;
+    json::Object o; o["t"] = "EN"; o["name"] = n; o["loc"] = loc(D->getLocation());
+    json::Array cs; for (auto *E : D->enumerators()) { json::Object c; c["n"] = E->getQualifiedNameAsString(); c["v"] = E->getInitVal().getExtValue(); cs.push_back(std::move(c)); }
+    o["consts"] = std::move(cs);
+    if (auto *R = dyn_cast<CXXRecordDecl>(D->getDeclContext())) o["cls"] = clsName(R);
+    emit(std::move(o));
+    return true;
+  }
   bool VisitSwitchStmt(SwitchStmt *S) {
     if (!cur) return true;
     json::Array labs; bool def = false;
